@@ -67,6 +67,7 @@ def emit_item(t):
             args.append(f"{ln}: {e}" if named else e)
             ctor = f"{init} {{ {', '.join(args)} }}" if named else f"{init}({', '.join(args)})"
             dflt = f"D::Default => <Self as DynDefault>::dyn_default(bytes)," if t.has_default else ""
+            o.append(f"impl Editable for {t.name} {{}}")
             o.append(f"impl DynTarget for {t.name} {{ unsafe fn dyn_emplace<'a>(d: &D, bytes: &'a mut [u8]) -> Result<&'a mut Self, Error> {{ match d {{ D::Struct(f, l) => {{ let _ = f; {ctor}.emplace_unchecked(bytes) }} {dflt} _ => panic!(\"harness: bad initialiser for {t.name}\") }} }} }}")
     else:
         vs = []
@@ -112,6 +113,7 @@ def emit_item(t):
                 ctor = f"{init} {{ {', '.join(args)} }}" if k == "named" else f"{init}({', '.join(args)})"
                 arms.append(f"{i} => {ctor}.emplace_unchecked(bytes),")
             dflt = f"D::Default => <Self as DynDefault>::dyn_default(bytes)," if t.has_default else ""
+            o.append(f"impl Editable for {t.name} {{}}")
             o.append(f"impl DynTarget for {t.name} {{ unsafe fn dyn_emplace<'a>(d: &D, bytes: &'a mut [u8]) -> Result<&'a mut Self, Error> {{ match d {{ D::Enum(i, f, l) => {{ let _ = (f, l); match i {{ {' '.join(arms)} _ => panic!(\"harness: bad variant\") }} }} {dflt} _ => panic!(\"harness: bad initialiser for {t.name}\") }} }} }}")
     return "\n".join(o)
 
@@ -136,7 +138,10 @@ def emit(catalog):
         d = t.desc()
         dflt = f"Some(default_fn::<{t.rs()}>)" if t.has_default else "None"
         nm = t.rs().replace('"', "'")
-        out.append(f"  Box::new(Ops::<{t.rs()}> {{ name: \"{nm}\", desc: \"{d}\", flags: \"{flags(t)}\", default: {dflt}, _p: PhantomData }}),")
+        def is_clone(e):
+            return isinstance(e, (Prim, BoolT)) or (isinstance(e, Arr) and is_clone(e.t))
+        cl = f"Some(vec_clone_ops::<{t.t.rs()}, {t.l.rs()}>)" if isinstance(t, VecT) and is_clone(t.t) else "None"
+        out.append(f"  Box::new(Ops::<{t.rs()}> {{ name: \"{nm}\", desc: \"{d}\", flags: \"{flags(t)}\", default: {dflt}, clone_ops: {cl}, _p: PhantomData }}),")
     out.append("] }")
     out.append("pub fn defaults() -> Vec<Option<&'static str>> { vec![")
     for t in catalog:
